@@ -1,14 +1,16 @@
 from fw import PropertyCheck
 import fam_world
+import fam_guards
 
 
 class Check(PropertyCheck):
     pid = "C09"
     search_rounds = 1
     search_tier = "quick"
-    rule = ('exhaustive matrix on the real pair contracts: entry point {provide, execute swap, hook swap / direct Receive} x pair kind {native/native, native/cw20} x declared {0, v} x attached {absent, 0, v-1, v, v+1} x extra unrelated coin {no, yes} x the same for the second denom; plus random histories with malformed funds.  Full snapshot comparison with the model after every step; the monitor checks that a success means exactly the declared amount was attached and reached the pair, and that a failure changed nothing.  Non-trivial = history with >= 2 successful transactions.')
+    rule = ('the helper itself on denoms that differ only by letter case, by a suffix or prefix, or not at all, with the matching coin first / last / absent / duplicated / zero and amounts beyond 64 bits; exhaustive matrix on the real pair contracts: entry point {provide, execute swap, hook swap / direct Receive} x pair kind {native/native, native/cw20} x declared {0, v} x attached {absent, 0, v-1, v, v+1} x extra unrelated coin {no, yes} x the same for the second denom; plus random histories with malformed funds.  Full snapshot comparison with the model after every step; the monitor checks that a success means exactly the declared amount was attached and reached the pair, and that a failure changed nothing.  Non-trivial = history with >= 2 successful transactions.')
     modelled = ["cw-multi-test 0.16.1 transaction atomicity and depth-first message order; cw20-base 1.0.0; the bank"]
     assumptions = ["E-funds, E-actors, E-names, E-zero-coin (DESIGN.md section 4.5)"]
 
     def families(self, rng, tier):
-        return [("world.funds_matrix", fam_world.funds_matrix(rng, tier)), ("world.general", fam_world.general_histories(rng, tier, n_hist={"quick": 5, "thorough": 50}[tier]))]
+        return [("asset.assert_sent_native_token_balance", fam_guards.sent_native_cases(rng, tier)),
+                ("world.funds_matrix", fam_world.funds_matrix(rng, tier)), ("world.general", fam_world.general_histories(rng, tier, n_hist={"quick": 5, "thorough": 50}[tier]))]
